@@ -287,10 +287,19 @@ Proof.
   intros h a b p R Hp. unfold reach in *. eapply reachP_trans; [exact R|]. econstructor; [exact Hp|constructor].
 Qed.
 
+Lemma reach_local_rev : forall h h' (S : ref -> Prop),
+  (forall x p, S x -> In p (pars h x) -> S p) -> (forall x, S x -> pars h' x = pars h x) ->
+  forall a b, reach h a b -> S a -> reach h' a b.
+Proof.
+  intros h h' S CL EQ a b R. unfold reach in *. induction R as [a|a p b Hp Hr IHr]; intros Sa.
+  - constructor.
+  - econstructor; [rewrite (EQ a Sa); exact Hp|]. apply IHr. eapply CL; eauto.
+Qed.
+
 (* what update_subtree does inside its domain: no exception, a well-formed result made of
    remaining old members (whose parent links only shrink or point to inserted nodes) and of
    inserted nodes Bs: new objects, closed under parents, free of cycles *)
-Lemma update_subtree_facts_frame : forall h g old new, WF h g -> guard_b (h, g) (OUpdSub old new) = true ->
+Lemma update_subtree_facts_exact : forall h g old new, WF h g -> guard_b (h, g) (OUpdSub old new) = true ->
   exists h4 g3 (Bs : ref -> Prop), update_subtree h g old new = Ok (h4, g3) /\ WF h4 g3 /\
     (forall x, In x g3 -> In x g \/ Bs x) /\
     (forall x, Bs x -> length h <= x) /\
@@ -298,7 +307,19 @@ Lemma update_subtree_facts_frame : forall h g old new, WF h g -> guard_b (h, g) 
     (forall x, Bs x -> ~ on_cycle h4 x) /\
     (forall x, In x g -> In x g3 -> forall p, In p (pars h4 x) -> Bs p \/ In p (pars h x)) /\
     (* frame: objects that are not members of g are untouched, new objects are appended *)
-    (length h <= length h4 /\ forall r, r < length h -> ~ In r g -> get h4 r = get h r).
+    (length h <= length h4 /\ forall r, r < length h -> ~ In r g -> get h4 r = get h r) /\
+    (* exact result: R = the copied objects in copy order, g2 = the member list before sort_nodes *)
+    (exists R g2, closure h new = Ok R /\
+       length h4 = length h + length R /\
+       (forall i, i < length R ->
+          label (get h4 (length h + i)) = label (get h (nth i R 0)) /\
+          pars h4 (length h + i) = map (rename R (length h)) (pars h (nth i R 0))) /\
+       (forall r, In r g -> ~ reach h old r ->
+          label (get h4 r) = label (get h r) /\
+          forall p, In p (pars h4 r) <->
+            (p = rename R (length h) new /\ In old (pars h r)) \/ (In p (pars h r) /\ ~ reach h old p)) /\
+       WF h4 g2 /\ sort_nodes h4 g2 = Ok g3 /\
+       (forall x, In x g2 <-> (In x g /\ ~ reach h old x) \/ reach h4 (rename R (length h) new) x)).
 Proof.
   intros h g old new W G. simpl in G. repeat rewrite andb_true_iff in G.
   destruct G as [[[G1 G2] G3] G4].
@@ -411,7 +432,7 @@ Proof.
   assert (NG1C : forall r, In r g1 -> ~ In r subc).
   { intros r Hr X. apply RSC in X. apply SCC in X. destruct (COPY _ X). destruct (I1 r Hr) as [Z _].
     specialize (Vg _ Z). lia. }
-  destruct (add_node_g_WF_gen h4 g1 nw R4 HK4 ND1) as [g2 [E5 [W5 [_ [_ M5]]]]].
+  destruct (add_node_g_WF_gen h4 g1 nw R4 HK4 ND1) as [g2 [E5 [W5 [I5 [Hn5 M5]]]]].
   - intros r Hr. rewrite L4, L3, L2, L1. destruct (I1 r Hr) as [Z _]. specialize (Vg _ Z). lia.
   - exact Vnw4.
   - exact EC4.
@@ -447,7 +468,7 @@ Proof.
     destruct (sort_nodes_WF h4 g2 W5) as [g3 [E6 W6]]. rewrite E6. cbn [bind].
     destruct (closure_spec _ _ _ EC4) as [_ [HnR4 [CL4 _]]].
     exists h4, g3, (fun x => In x R4). split; [reflexivity|]. split; [exact W6|].
-    split; [|split; [|split; [|split; [|split]]]].
+    split; [|split; [|split; [|split; [|split; [|split]]]]].
     + intros x Hx. apply (sort_nodes_incl h4 g2 g3 W5 E6) in Hx. destruct (M5 x Hx) as [A|A]; [left|right; exact A].
       apply I1. exact A.
     + intros x Hx. destruct (R4C x Hx) as [_ Cx]. apply COPY in Cx. fold base. lia.
@@ -470,6 +491,62 @@ Proof.
         { apply memb_false. intros Y. destruct (I1 r Y) as [Z _]. tauto. }
         rewrite X. rewrite N2 by (left; exact Ng). apply OLD1. exact Hr.
       * intros X. apply RSC in X. apply SCC in X. apply COPY in X. lia.
+    + assert (SO : forall m, In m S <-> reach h old m).
+      { intros m. split.
+        - intros Hm. apply RSS in Hm.
+          destruct (reach_local h h2 (fun x => reach h old x)) with (a := old) (b := m) as [A _]; auto.
+          + intros x p Rx Hp. eapply reach_step_r; eauto.
+          + intros x Rx. apply RO. exact Rx.
+          + constructor.
+        - intros Rm. apply RSS.
+          apply (reach_local_rev h h2 (fun x => reach h old x)) with (a := old); auto.
+          + intros x p Rx Hp. eapply reach_step_r; eauto.
+          + intros x Rx. apply RO. exact Rx.
+          + constructor. }
+      exists R, g2. split; [exact EC|]. split; [rewrite L4, L3, L2, L1; reflexivity|].
+      split; [|split; [|split; [exact W5|split; [exact E6|]]]].
+      * intros i Li.
+        assert (Ci : is_copy h R (base + i)) by (exists i; auto).
+        destruct (F4 (base + i)) as [Fp [Fl _]]. fold base. unfold pars at 1. rewrite Fp, Fl, (CP _ Ci).
+        split; [apply (dc_copy_label h R i Li)|]. apply (dc_pars h new R EC PW i Li).
+      * intros r Hr NR.
+        assert (NS : ~ In r S) by (rewrite SO; exact NR).
+        assert (Hr1 : In r g1) by (apply remove_items_In; auto).
+        pose proof Hr1 as Hr1'. apply memb_In in Hr1'.
+        assert (Vr : r < base) by (apply Vg; exact Hr).
+        split.
+        -- destruct (F4 r) as [_ [Fl _]]. rewrite Fl, G3', Hr1'. simpl.
+           destruct (F2 r) as [_ [_ Fl2]]. rewrite Fl2. rewrite OLD1 by exact Vr. reflexivity.
+        -- intros p. rewrite P4, P3, Hr1', dedupe_In, remove_items_In, (proj2 (Q2 r Hr)), SO.
+           unfold pars at 1 2. rewrite OLD1 by exact Vr. fold (pars h r). fold base nw. split.
+           ++ intros [[[-> A]|[A B]] C]; [left; auto|right; auto].
+           ++ intros [[-> A]|[A B]]; split; auto.
+              ** intros X. apply SO, SG in X. tauto.
+              ** right. split; [exact A|]. intros ->. apply B. constructor.
+      * intros x. fold base nw. split.
+        -- intros Hx. destruct (M5 x Hx) as [A|A].
+           ++ left. destruct (I1 x A) as [A1 A2]. split; [exact A1|]. rewrite <- SO. exact A2.
+           ++ right. apply RS4. exact A.
+        -- intros [[A1 A2]|A].
+           ++ apply I5. apply remove_items_In. split; [exact A1|]. rewrite SO. exact A2.
+           ++ apply (reach_closed_set h4 (fun y => In y g2) nw x A Hn5).
+              intros y p Hy Hp. eapply (wf_closed _ _ W5); eauto.
+Qed.
+
+Lemma update_subtree_facts_frame : forall h g old new, WF h g -> guard_b (h, g) (OUpdSub old new) = true ->
+  exists h4 g3 (Bs : ref -> Prop), update_subtree h g old new = Ok (h4, g3) /\ WF h4 g3 /\
+    (forall x, In x g3 -> In x g \/ Bs x) /\
+    (forall x, Bs x -> length h <= x) /\
+    (forall x p, Bs x -> In p (pars h4 x) -> Bs p) /\
+    (forall x, Bs x -> ~ on_cycle h4 x) /\
+    (forall x, In x g -> In x g3 -> forall p, In p (pars h4 x) -> Bs p \/ In p (pars h x)) /\
+    (* frame: objects that are not members of g are untouched, new objects are appended *)
+    (length h <= length h4 /\ forall r, r < length h -> ~ In r g -> get h4 r = get h r).
+Proof.
+  intros h g old new W G.
+  destruct (update_subtree_facts_exact h g old new W G) as [h4 [g3 [Bs [A [B [C [D [E [F [H [J _]]]]]]]]]]].
+  exists h4, g3, Bs. split; [exact A|]. split; [exact B|]. split; [exact C|]. split; [exact D|].
+  split; [exact E|]. split; [exact F|]. split; [exact H|exact J].
 Qed.
 
 Lemma update_subtree_facts : forall h g old new, WF h g -> guard_b (h, g) (OUpdSub old new) = true ->
